@@ -32,6 +32,11 @@ CLAIMS = {
     "C06": dict(text="The real generate_internal (header, reservation, back-patching) is executed with contracts for its multi-step callees: for every protocol and entropy string the "
                      "output is PROTO [+ FRAME with length = exactly the rest] + body + STOP; FRAME never a body choice (GUARD) and never produced by TypeConfusion (POST).",
                 note=K + "body/tail contracts append a fixed number (0..2) of arbitrary bytes per call, T <= 2.", ref="§4 HEAD/POST, §5 C06"),
+    "C07": dict(text="Reduced scope: generate() with a seed and generate_from_arbitrary() are run twice symbolically with equal configuration and entropy and must return equal "
+                     "bytes; seven representative emitters likewise. Because Kani rejects every reachable syscall, FFI call, clock read or inline asm, a pass also shows that no "
+                     "OS entropy or wall-clock source is reachable on these paths (the unseeded path is kept as a must-fail twin).",
+                note=K + "hash-seed / allocation-address dependence, thread interleavings, worker counts, separate processes and batch mode are outside (Kani models no concurrency; main() is not executable).",
+                ref="§4 PURITY, §5 C07"),
     "C08": dict(text="Two generation calls on one generator, with and without reset(), compared with a fresh generator for every protocol and input (<= 2 bytes); the used generator "
                      "starts from an arbitrary dirty scratch state (symbolic) or a real earlier call (native replay).",
                 note=K + "callee contracts deterministic in this family; T <= 1.", ref="§4 HEAD(reuse), §5 C08"),
